@@ -184,11 +184,58 @@ func genStream(r *kit.Rng, cd codec, large int) []vegeta.Result {
 // runBoundaryStreams: streams with records whose encoded size sits around and between common buffer
 // sizes (4 KiB bufio, 64 KiB, 128 KiB, 256 KiB); only the points between Encode calls are cut
 // (each must be a record boundary) plus a few offsets around them, so large records stay cheap.
-func runBoundaryStreams(r *kit.Rng, s *kit.Summary, cd codec, n int) {
+// decodeAuto reads a (cut) stream the way the commands do: through the format detection.
+func decodeAuto(b []byte) (rs []vegeta.Result, term string) {
+	p, _ := kit.Recover(func() {
+		dec := vegeta.DecoderFor(bytes.NewReader(b))
+		if dec == nil {
+			term = "format not detected"
+			return
+		}
+		for {
+			var x vegeta.Result
+			err := dec.Decode(&x)
+			if err == io.EOF {
+				term = "eof"
+				return
+			}
+			if err != nil {
+				term = "err"
+				return
+			}
+			rs = append(rs, x)
+			if len(rs) > 1000 {
+				term = "runaway"
+				return
+			}
+		}
+	})
+	if p {
+		term = "panic"
+	}
+	return
+}
+
+func runBoundaryStreams(c *run.Ctx, r *kit.Rng, s *kit.Summary, cd codec, n int) {
+	type cliJob struct {
+		st   *stream
+		want int
+		out  string
+		what string
+	}
+	var cli []cliJob
+	var ops, files []string
+	haveVegeta := false
+	if _, err := os.Stat(c.Vegeta); err == nil {
+		haveVegeta = true
+	}
 	bands := [][2]int{{2500, 5000}, {7000, 9000}, {30000, 34000}, {45000, 52000}, {60000, 70000}, {70000, 100000}, {100000, 140000}, {180000, 270000}}
 	for i := 0; i < n; i++ {
 		rs := genStream(r, cd, 0)
 		k := r.Pick(len(rs))
+		if (i+i/len(gen.BigFieldKinds))%2 == 0 {
+			k = 0 // the large record comes FIRST (what the format detection has to get through)
+		}
 		band := bands[(i/len(gen.BigFieldKinds))%len(bands)] // every (band, field) combination in turn
 		enc := band[0] + r.Pick(band[1]-band[0])
 		// the record is made large through its body or through a text / the headers (fields that the
@@ -210,7 +257,59 @@ func runBoundaryStreams(r *kit.Rng, s *kit.Summary, cd codec, n int) {
 			continue
 		}
 		s.Count(fmt.Sprintf("%s:boundary-stream-band=%d", cd.name, band[0]))
+		if k == 0 {
+			s.Count(cd.name + ":boundary-stream large record first")
+		}
 		s.Case(fmt.Sprint(cd.name, ":boundary:", st.hash), true)
+		// the same points read through the format detection (vegeta.DecoderFor), plus a cut inside the last record
+		cutsAuto := append([]int{}, st.bounds...)
+		if cd.name != "csv" && len(st.bounds) > 0 {
+			last := len(st.bounds) - 1
+			lo := 0
+			if last > 0 {
+				lo = st.bounds[last-1]
+			}
+			cutsAuto = append(cutsAuto, lo+1+r.Pick(st.bounds[last]-lo-1))
+		}
+		for _, cut := range cutsAuto {
+			want := 0
+			for _, b := range st.bounds {
+				if b <= cut {
+					want++
+				}
+			}
+			got, term := decodeAuto(st.data[:cut])
+			bad := len(got) != want || term == "panic" || term == "runaway"
+			for q := 0; !bad && q < len(got); q++ {
+				bad = !gen.SameResult(&got[q], &rs[q])
+			}
+			if bad {
+				kind := "prefix_missing_record"
+				if len(got) > want {
+					kind = "prefix_extra_record"
+				}
+				s.Violate(kit.Violation{Kind: kind, What: "a (cut) stream read through the format detection (DecoderFor) does not yield exactly the records completely written before the cut",
+					Input:    map[string]interface{}{"codec": cd.name, "read_through": "vegeta.DecoderFor", "body_sizes": bodySizes(rs), "big_field": kindOf(i), "large_record_index": k, "cut": cut, "stream_len": len(st.data), "record_ends": st.bounds},
+					Expected: fmt.Sprintf("%d records then eof/error", want), Observed: fmt.Sprintf("%d records then %s", len(got), term), Key: map[string]interface{}{"codec": cd.name, "decoder_for": true}})
+				break
+			}
+		}
+		// … and through the `encode` command: the complete stream and the stream cut after its first record
+		if haveVegeta && i%2 == 0 {
+			for v, cut := range []int{len(st.data), st.bounds[0]} {
+				want := len(rs)
+				if v == 1 {
+					want = 1
+				}
+				in := filepath.Join(c.Work, fmt.Sprintf("bnd-%s-%d-%d.in", cd.name, i, v))
+				out := filepath.Join(c.Work, fmt.Sprintf("bnd-%s-%d-%d.out", cd.name, i, v))
+				os.WriteFile(in, st.data[:cut], 0o644)
+				os.Remove(out)
+				files = append(files, in, out)
+				cli = append(cli, cliJob{st, want, out, fmt.Sprintf("%s stream, large record (%s) at index %d, input cut at %d of %d bytes", cd.name, kindOf(i), k, cut, len(st.data))})
+				ops = append(ops, "encode "+kit.HexS(cd.name)+" "+kit.HexS(out)+" "+kit.HexS(in))
+			}
+		}
 		for j, bnd := range st.bounds {
 			got, term := decodePrefix(cd, st.data[:bnd])
 			if len(got) != j+1 || term == "panic" || term == "runaway" {
@@ -222,7 +321,33 @@ func runBoundaryStreams(r *kit.Rng, s *kit.Summary, cd codec, n int) {
 			}
 		}
 	}
+	if len(ops) > 0 {
+		res, err := kit.RunVegeta(c.Vegeta, ops)
+		if err != nil {
+			s.Skipped["encode-command: driver failed"]++
+		} else {
+			for i, j := range cli {
+				data, _ := os.ReadFile(j.out)
+				got, term := decodePrefix(cd, data)
+				s.Count(cd.name + ":boundary-stream through the encode command")
+				bad := len(got) != j.want || term == "panic" || term == "runaway"
+				for q := 0; !bad && q < len(got); q++ {
+					bad = !gen.SameResult(&got[q], &j.st.rs[q])
+				}
+				if bad {
+					s.Violate(kit.Violation{Kind: "prefix_missing_record", What: "`vegeta encode` on a stream with a large record: its output does not hold exactly the records completely written to its input",
+						Input:    map[string]interface{}{"command": "vegeta encode -to " + cd.name, "input": j.what, "body_sizes": bodySizes(j.st.rs), "command_result": res[i]},
+						Expected: fmt.Sprintf("%d records then eof/error", j.want), Observed: fmt.Sprintf("%d records then %s", len(got), term), Key: map[string]interface{}{"codec": cd.name, "encode_command": true}})
+				}
+			}
+		}
+		for _, f := range files {
+			os.Remove(f)
+		}
+	}
 }
+
+func kindOf(i int) string { return gen.BigFieldKinds[i%len(gen.BigFieldKinds)] }
 
 // runFailingEncode: a result that cannot be marshalled (a year outside 0..9999 makes Time.MarshalJSON
 // fail) is handed to a JSON encoder between ordinary ones. Whatever the encoder does afterwards, the bytes
@@ -1236,11 +1361,11 @@ func runC09(c *run.Ctx, s *kit.Summary) {
 		switch cd.name {
 		case "csv":
 			runStreams(c, r, s, cd, c.N(1500, 60000), 20000, c.N(20, 300))
-			runBoundaryStreams(r, s, cd, c.N(56, 840))
+			runBoundaryStreams(c, r, s, cd, c.N(56, 840))
 		default:
 			// ~600 bytes per stream on average
 			runStreams(c, r, s, cd, c.N(50, 3500), c.N(6000, 30000), c.N(2, 12))
-			runBoundaryStreams(r, s, cd, c.N(56, 840))
+			runBoundaryStreams(c, r, s, cd, c.N(56, 840))
 		}
 	}
 	runFailingEncode(r, s, c.N(40, 600))
